@@ -231,6 +231,7 @@ def facts : Facts := {
   encodeForeignWriteSiteList := []
   descriptorWriteSites := 0
   descriptorWriteSiteList := []
+  sharedWriteSiteList := ["defs/resolver.go:ResolveFields writes fieldsCache", "reflect/append_list.go:registerListAppendFunc writes listAppendFuncs", "reflect/append_map.go:registerMapAppendFunc writes mapAppendFuncs", "reflect/desc.go:createStructDesc writes buildCached", "reflect/desc.go:createStructDesc writes buildLinked", "reflect/desc.go:fetchStructDesc writes buildLinked", "reflect/desc.go:newStructDescAndPrefetch writes buildCached", "reflect/desc.go:newStructDescAndPrefetch writes prefetchStructDescCache", "reflect/desc.go:rollbackBuild writes prefetchStructDescCache", "reflect/ttype.go:newTType writes ttypes"]
   hotPathHeapSites := 0
   hotPathHeapSiteList := []
   escapeAnalysisRan := true
